@@ -111,9 +111,11 @@ def build_model(kind, tag=None):
         m = PartProcessor('M', [s1, s2], 1)        # two sources compete for one machine at every instant
         Sink('K', [m], collect_parts=True)
     elif kind == 'maint':
+        # the machine that fails is the FIRST asset of the model (it gets the lowest id there is at that offset)
+        m1 = PartProcessor('M1', None, 1)
         mt = Maintainer('mt', 1)
         s = Source('S', PartGenerator('p'), 1)
-        m1 = PartProcessor('M1', [s], 1)
+        m1.set_upstream([s])
         m2 = _SlowRepair('M2', [s], 1)
         for m in (m1, m2):
             m.add_shutdown_callback(_Repair(mt, tag))
